@@ -230,9 +230,27 @@ Proof.
   destruct (c_add1 k b x ch) as [[e|] b'] eqn:E; cbn [snd] in *; [now split|]. apply IH. now split.
 Qed.
 
+Lemma remove1_inv k ieq b key : inv k b -> inv k (snd (c_remove1 ieq b key)).
+Proof.
+  intros Hi. destruct key as [x|i]; cbn [c_remove1].
+  - unfold c_remove_item. destruct (find_index _ _) as [pos|] eqn:E; [|exact Hi].
+    apply del_inv_r; [exact Hi|now apply find_index_lt in E].
+  - unfold c_remove_index. pose proof (zlength_correct (c_items b)) as Hz.
+    destruct (zlength (c_items b) <=? i) eqn:E1; [exact Hi|].
+    destruct (i <? - zlength (c_items b)) eqn:E2; [exact Hi|].
+    apply del_inv_r; [exact Hi|]. destruct (i <? 0) eqn:E3; lia.
+Qed.
+
+Lemma remove_many_inv k ieq : forall ks b, inv k b -> inv k (snd (c_remove_many ieq b ks)).
+Proof.
+  induction ks as [|key ks IH]; intros b Hi; cbn [c_remove_many]; [exact Hi|].
+  pose proof (remove1_inv k ieq b key Hi) as H1.
+  destruct (c_remove1 ieq b key) as [[e|] b'] eqn:E; cbn [snd] in *; [exact H1|]. now apply IH.
+Qed.
+
 Theorem C15_step_aligned : forall k ieq b c, inv k b -> inv k (snd (c_step k ieq b c)).
 Proof.
-  intros k ieq b c Hi. pose proof Hi as [Ha Hr]. destruct c as [x ch|s|i|x|xs|xs]; cbn [c_step].
+  intros k ieq b c Hi. pose proof Hi as [Ha Hr]. destruct c as [x ch|s|i|x|xs|ks|xs]; cbn [c_step].
   - pose proof (add1_inv k b x ch Ha Hr) as [A [R _]]. now split.
   - unfold c_remove_label. destruct (find_index _ _) as [pos|] eqn:E; [|exact Hi].
     apply del_inv_r; [exact Hi|now apply find_index_lt in E].
@@ -243,6 +261,7 @@ Proof.
   - unfold c_remove_item. destruct (find_index _ _) as [pos|] eqn:E; [|exact Hi].
     apply del_inv_r; [exact Hi|now apply find_index_lt in E].
   - now apply add_many_inv.
+  - now apply remove_many_inv.
   - apply add_many_inv. split; [split; [reflexivity|constructor]|constructor].
 Qed.
 Print Assumptions C15_step_aligned.
